@@ -8,6 +8,11 @@ TEXT = {
         note="Trusts the sim API server semantics and the controlled informer; data values limited to the alphabet (one owned field, one foreign field, status, system metadata).",
         technique="bounded-exhaustive enumeration of the full decision table on the real code (explicit-state, no sampling)",
     ),
+    "C03": dict(
+        level="Bounded-exhaustive model checking: every combination of object roles (owned, orphaned, foreign-owned, non-matching, other namespace, deleting, undeclared kind) in 2-3 slots, for namespaced and cluster parents, core/grouped and namespaced/cluster child kinds, is synced once by the real controller; the children/attachments JSON of the logged hook request is compared with a view computed independently from the cache.",
+        note="Trusts the sim and the controlled informer; adoption/release succeed (fresh caches) - stale-cache adoption is C04's subject.",
+        technique="bounded-exhaustive enumeration of cluster contents x configurations on the real code, independent reference view as oracle",
+    ),
 }
 
 PENDING_REASON = "check not built yet in this session (planned in DESIGN.md §4); no claim is made until its check runs clean on the unchanged tree"
